@@ -981,7 +981,7 @@ def product_distribution(dist, rvs=None, rv_mode=None, base=None):
             outcome.extend(pair[0])
             prob.append(pair[1])
         outcomes.append(ctor(outcome))
-        pmf.append(ops.mult_reduce(prob))
+        pmf.append(ops.mult_reduce(np.asarray(prob)))
 
     d = Distribution(outcomes, pmf, validate=False)
 
